@@ -3,7 +3,7 @@
     the whole cache, reads never change it, a failed facade call leaves the reset cache), and the property lifted to
     HISTORIES of calls on one object. *)
 From Coq Require Import List NArith ZArith Bool Arith Lia Permutation.
-From SK Require Import lib.Tok lib.LGraph lib.Mono model.C12_Model model.C12_State
+From SK Require Import lib.Tok lib.LGraph lib.Mono model.C12_Model model.C12_Check model.C12_State
      proof.C12_Search proof.C12_Proof proof.C12_Prune proof.C12_Component.
 Import ListNotations.
 
@@ -134,7 +134,7 @@ Proof. reflexivity. Qed.
 
 (** a search call does not look at the cache: state AND answer are those of a fresh object *)
 Lemma m_step_search cfg st st' o : is_read o = false -> m_step cfg st o = m_step cfg st' o.
-Proof. destruct o; simpl; [reflexivity|reflexivity|discriminate|reflexivity]. Qed.
+Proof. destruct o; simpl; [reflexivity|reflexivity|discriminate|reflexivity|reflexivity]. Qed.
 
 Lemma m_run_reads cfg st rds : forallb is_read rds = true -> m_run cfg st rds = st.
 Proof.
@@ -186,13 +186,14 @@ Definition cache_ok (st : mstate) : Prop := s_flag st = None -> s_maps st = [] /
 
 Lemma m_step_ok cfg st o : cache_ok st -> cache_ok (fst (m_step cfg st o)).
 Proof.
-  intros H. destruct o as [g1 g2 mcs|x sd mcs comp|ds|g1 g2 mcs ch]; simpl.
+  intros H. destruct o as [g1 g2 mcs|x sd mcs comp|ds|g1 g2 mcs ch|g1 g2 ch]; simpl.
   - intros E. discriminate.
   - unfold m_rc. destruct (pick_sides x sd) as [[ga gb]|]; simpl.
     + destruct comp; simpl; intros E; discriminate.
     + intros _. split; reflexivity.
   - exact H.
   - destruct (apply_choices _ ch); simpl; [intros E; discriminate|intros _; split; reflexivity].
+  - destruct (find_mcs_mol_with _ _ _ _ _ ch); simpl; [intros E; discriminate|intros _; split; reflexivity].
 Qed.
 
 Lemma m_run_ok cfg ops : forall st, cache_ok st -> cache_ok (m_run cfg st ops).
@@ -275,6 +276,16 @@ Theorem history_auto st ops g1 g2 mcs choices rds kept : forallb is_read rds = t
      s_flag := Some (r_pattern_is_g1 (find_common_subgraph (c_defs cfg) (c_prune cfg) (c_wc cfg) (project cfg g1) (project cfg g2) mcs)) |}.
 Proof.
   intros Hr E. rewrite (history_last_search cfg st ops (MFindAuto g1 g2 mcs choices) rds eq_refl Hr).
+  cbn [m_step]. rewrite E. reflexivity.
+Qed.
+
+(** mcs_mol=True after any history: with an accepted parameter the cache is that of the validated result (one combined mapping,
+    reported G1 -> G2), to which [mol_choice_valid] of proof/C12_Check.v applies *)
+Theorem history_mol st ops g1 g2 choice rds r : forallb is_read rds = true ->
+  find_mcs_mol_with (c_defs cfg) (c_prune cfg) (c_wc cfg) (project cfg g1) (project cfg g2) choice = Some r ->
+  m_run cfg st (ops ++ MFindMol g1 g2 choice :: rds) = state_of r.
+Proof.
+  intros Hr E. rewrite (history_last_search cfg st ops (MFindMol g1 g2 choice) rds eq_refl Hr).
   cbn [m_step]. rewrite E. reflexivity.
 Qed.
 
